@@ -130,6 +130,9 @@ def run(rep, tier, seed):
     # (a) spec-level theorem
     mc = tlcrun.require_ok(tlcrun.run_tlc("MC_Bytecode", workers=core.TLC_WORKERS, timeout=600), "MC_Bytecode")
     rep.add_tlc(mc)
+    # the same law for EVERY operand value and every operand layout, symbolically (Apalache, spec/BytecodeInd.tla)
+    core.apalache_invariant("BytecodeInd")
+    rep.notes["codec_law_all_values"] = "RoundTrip / NoAliasInRange / TruncationOutside established by Apalache for all operand values"
     widths, probe = vmtrace.real_widths()
     sweep = core.run_cases([{"id": "sweep", "kind": "codec_sweep", "widths": widths,
                              "sample_stride": 997 if tier == "quick" else 101}], deadline_ms=600000)["sweep"]
